@@ -57,8 +57,12 @@ func c03parse(p *Packet) c03m {
 }
 
 // lengths of the variable-length fields that are enumerated (part of the stated bound)
+// c03quickShapes makes the shape enumeration of c03wf the quick-tier one in either tier (used by
+// the C02 SetPayload harness, whose thorough tier multiplies shapes by 16 payload lengths)
+var c03quickShapes bool
+
 func c03lengths() []int {
-	if vrt.Tier() == 0 {
+	if vrt.Tier() == 0 || c03quickShapes {
 		return []int{0, 1, 3}
 	}
 	return []int{0, 1, 2, 3, 8, 24}
@@ -66,7 +70,7 @@ func c03lengths() []int {
 
 // presence-flag combinations: all 32 in the thorough tier, a covering subset in the quick tier
 func c03presence() byte {
-	if vrt.Tier() == 1 {
+	if vrt.Tier() == 1 && !c03quickShapes {
 		return byte(vrt.Choose("presence", 0, 31))
 	}
 	return []byte{0x00, 0x01, 0x02, 0x04, 0x08, 0x10, 0x03, 0x1F, 0x12, 0x0B, 0x1C, 0x15}[vrt.Choose("presence", 0, 11)]
@@ -613,16 +617,20 @@ func VH_C03_SetAdaptationField() {
 	dm.L = int(dst[4])
 	var src Packet
 	var sm c03m
-	if vrt.Tier() == 0 {
-		// quick: ten source shapes (thorough: every shape of c03wf)
+	{
+		// quick: ten source shapes; thorough: 24. (Every shape of c03wf x 6 destinations = 3500
+		// jobs at up to 200 s of solver time each was tried in the thorough tier and abandoned.)
 		type shape struct {
 			f      byte
 			tl, el int
 		}
-		sh := []shape{{0x00, 0, 0}, {0x10, 0, 0}, {0x1C, 0, 0}, {0x02, 3, 0}, {0x02, -188, 0}, {0x01, 0, 1}, {0x03, 1, 3}, {0x1F, 3, 0}, {0x1F, 0, -187}, {0x0B, 1, -182}}[vrt.Choose("srcShape", 0, 9)]
+		shapes := []shape{{0x00, 0, 0}, {0x10, 0, 0}, {0x1C, 0, 0}, {0x02, 3, 0}, {0x02, -188, 0}, {0x01, 0, 1}, {0x03, 1, 3}, {0x1F, 3, 0}, {0x1F, 0, -187}, {0x0B, 1, -182}}
+		if vrt.Tier() == 1 {
+			shapes = append(shapes, shape{0x08, 0, 0}, shape{0x04, 0, 0}, shape{0x18, 0, 0}, shape{0x14, 0, 0}, shape{0x02, 0, 0}, shape{0x02, 24, 0}, shape{0x01, 0, 0}, shape{0x01, 0, 8},
+				shape{0x03, 0, 0}, shape{0x07, 2, 1}, shape{0x13, 8, 2}, shape{0x1F, 0, 0}, shape{0x1F, 1, 24}, shape{0x0E, -187, 0})
+		}
+		sh := shapes[vrt.Choose("srcShape", 0, len(shapes)-1)]
 		src, sm = c03wfShape("src", sh.f, sh.tl, sh.el)
-	} else {
-		src, sm = c03wf("src")
 	}
 	q := dst
 	srcAF, _ := src.AdaptationField()
